@@ -40,8 +40,8 @@ def parse_script(script):
 
 def expected_stream(script, max_stack, threshold=0):
     """The property as a specification: every executed call at depth < max_stack, in
-    execution order, nested, depth = number of open calls; except never-written calls of
-    zero duration (clock-resolution assumption, see DESIGN C02)."""
+    execution order, nested, depth = number of open calls (also calls of zero measured
+    duration, since the repair of finding S4: the exit hook keeps `>= threshold`)."""
     roots = parse_script(script)
 
     def mark(n, anc):
@@ -59,7 +59,7 @@ def expected_stream(script, max_stack, threshold=0):
             return False
         if "rec" not in n:
             kids = [recorded(k) for k in n["kids"]]
-            n["rec"] = n["forced"] or any(kids) or (n["t1"] is not None and n["t1"] - n["t0"] > threshold)
+            n["rec"] = n["forced"] or any(kids) or (n["t1"] is not None and n["t1"] - n["t0"] >= threshold)
         return n["rec"]
     out = []
     # a forked child writes its own data file: only what happens after the (last) FORK belongs to it
@@ -311,7 +311,7 @@ def run(ctx):
         "input_distribution": dist, "model_code_disagreements": disagreements,
         "monitor_failures_on_impl": monitor_fail, "samples": samples, "exhaustive": False,
     })
-    ctx.assumptions += ["CLOCK_MONOTONIC is strictly increasing between a call's entry and exit (zero-duration leaf calls are not recorded by design of the time filter)",
+    ctx.assumptions += ["CLOCK_MONOTONIC never reads 0 (end_time == 0 is libmcount's marker of a still open call) and does not step back between a call's entry and exit",
                         "one thread per H1 process; threads share no per-thread state (mtd is thread-local)"]
     return C.finish(ctx)
 
